@@ -104,7 +104,7 @@ Fixpoint disc (m : option bool) (ops : list op) : Prop :=
     | OUnlockW => m = Some true /\ disc None r
     | OLockR => m = None /\ disc (Some false) r
     | OUnlockR => m = Some false /\ disc None r
-    | ORdBuiltin | ORdGlobal => m <> None /\ disc m r
+    | ORdBuiltin | ORdGlobal | ORdGlobalC => m <> None /\ disc m r
     | OCompile _ => m = Some true /\ r = []
     | OWrGlobal _ _ => m = Some true /\ disc m r
     | _ => disc m r
@@ -285,6 +285,11 @@ Proof.
     inv_some. split; [exact Hex|split].
     + eapply Hframe; simpl; eauto.
     + simpl. constructor; [|exact Htr]. exact I.
+  - (* ORdGlobalC *)
+    inv_some. destruct Hdt as [Hm Hdr]. split; [exact Hex|split].
+    + eapply Hframe; simpl; eauto.
+    + simpl. constructor; [|exact Htr]. unfold event_ok, ev_of, mu_locks; simpl.
+      destruct (mode_of c t) as [b|]; [|congruence]. exists b. left; reflexivity.
 Qed.
 
 Lemma reachable_Inv1 g0 st0 mods0 js sched : Inv1 (run sched (init g0 st0 mods0 js)).
@@ -478,6 +483,8 @@ Proof.
   - rewrite Ho in Hs. inv_some. split; [reflexivity|split; [eapply Hframe; simpl; eauto|]].
     simpl. constructor; [simpl; reflexivity|exact Htr].
   - contradiction.
+  - inv_some. split; [reflexivity|split; [eapply Hframe; simpl; eauto|]].
+    simpl. constructor; [simpl; discriminate|exact Htr].
 Qed.
 
 Lemma race_free_without_use g0 st0 mods0 js sched :
